@@ -16,7 +16,7 @@ var (
 	c05Paths    = []string{"/", "/a", "/a/b", "/c/", "/A"}
 	c05Dsts     = []string{"http://10.0.0.1:80/", "http://10.0.0.2:8080/", "https://10.0.0.3:443/", "http://10.0.0.4:80/x?y=1", "http://[::1]:8000/", "http://h5:80", "http://10.0.0.6:80/caf\u00e9", "http://10.0.0.7:80/#"}
 	c05Weights  = []float64{0, 0, -1, -0.5, 0.05, 0.1, 0.25, 0.3333, 0.5, 0.75, 1, 1.5, 2}
-	c05Tags     = []string{"a", "b", "c", "d"}
+	c05Tags     = []string{"a", "b", "c", "d", "dc\\east", "t\tab", "z\u200bw"} // the last three: a backslash, a TAB, a zero-width space
 	c05OptPool  = []string{"strip=/a", "prepend=/p", "proto=https", "host=dst", "host=x.com", "tlsskipverify=true", "register=alias", "redirect=301", "pxyproto=true", "flag"}
 )
 
@@ -31,10 +31,11 @@ func c05Spell(r *rand.Rand, dst string) string {
 }
 
 type c05Script struct {
-	Lines []string
-	defs  []refmodel.Def
-	kinds map[string]bool
-	mixed bool
+	Lines     []string
+	defs      []refmodel.Def
+	kinds     map[string]bool
+	mixed     bool
+	negWeight bool // a 'route weight' with a negative weight matched a target
 }
 
 // genScript generates a command script and interprets it with the model on the fly.
@@ -54,10 +55,16 @@ func genScript(r *rand.Rand, n int) (*c05Script, refmodel.Table) {
 		}
 		return h + p, w + p
 	}
+	var adds []refmodel.Def
 	for len(s.Lines) < n {
 		var d refmodel.Def
 		k := r.Intn(10)
+		if len(adds) > 0 && r.Intn(8) == 0 {
+			k = 100 // an earlier add once more, verbatim: add is idempotent whatever happened in between
+		}
 		switch {
+		case k == 100:
+			d = adds[r.Intn(len(adds))]
 		case k < 6:
 			_, w := src()
 			svc := choose(r, c05Services)
@@ -124,11 +131,18 @@ func genScript(r *rand.Rand, n int) (*c05Script, refmodel.Table) {
 				continue
 			}
 		}
+		matchedNeg := d.Cmd == "weight" && d.Weight < 0 && m.WouldMatchWeight(d)
 		if err := m.Apply(d); err != nil {
 			continue
 		}
+		if matchedNeg {
+			s.negWeight = true
+		}
 		s.kinds[d.Cmd] = true
 		s.defs = append(s.defs, d)
+		if d.Cmd == "add" {
+			adds = append(adds, d)
+		}
 		s.Lines = append(s.Lines, d.Text())
 	}
 	m.Normalize()
@@ -152,6 +166,9 @@ func c05Model(c *ctx) {
 		}
 		if len(s.kinds) >= 2 && len(s.Lines) < 12 && c.R.WantSample() {
 			c.R.Sample(map[string]any{"script": s.Lines})
+		}
+		if s.negWeight {
+			c.R.Count("scripts_with_matched_negative_route_weight", 1)
 		}
 		c05CheckModel(c, s.Lines, m)
 	})
